@@ -41,7 +41,7 @@ RULE = ("random xarray Datasets: 1-4 parameter dimensions (int / float / str coo
         "a missing and a non-missing location under some criterion")
 
 DIM_NAMES = ["q", "b", "z", "a", "m", "tolerance", "drop", "method"]   # deliberately unsorted; the last three are also keyword options of Dataset.sel
-INT_NAMES = ["t", "k"]
+INT_NAMES = ["t", "k", "time", "freq"]     # multi-character names too (ignore_dims may be a bare string)
 VAR_NAMES = ["y", "x", "w"]
 NAN_OBJ = M.NAN_OBJ                            # token of a float NaN object inside an object (str) variable
 
